@@ -27,6 +27,7 @@ type atCall struct {
 type LoopSpec struct {
 	Invs  []*Clause
 	Exits []*Clause // "exit <expr>": proved at every way out of the loop, then assumed (a cut)
+	Steps []*Clause // "step <expr>": proved at the end of every iteration (back edge, continue); called() = calls of this iteration
 	Decr *Clause
 }
 
@@ -88,7 +89,7 @@ type TypeSpec struct {
 }
 
 var clauseKeywords = map[string]bool{"property": true, "requires": true, "ensures": true, "modifies": true,
-	"panics": true, "loop": true, "invariant": true, "decreases": true, "exit": true, "trusted": true, "pure": true, "reads": true, "mode": true,
+	"panics": true, "loop": true, "invariant": true, "decreases": true, "exit": true, "step": true, "trusted": true, "pure": true, "reads": true, "mode": true,
 	"nosafety": true, "utf8": true, "order": true, "atcall": true, "assumes": true, "apply": true, "checks": true, "ghostfield": true, "holds": true, "nowrap": true, "exclusive": true, "inline": true, "forall": true, "guards": true, "lockinv": true, "ghost": true, "unroll": true}
 
 // rewriteImplies turns `A ==> B` (lowest precedence, right associative, split at
@@ -564,6 +565,10 @@ func (e *Engine) parseContractFile(p *packages.Package, f *ast.File, fname strin
 		case "exit":
 			if curLoop != nil {
 				curLoop.Exits = append(curLoop.Exits, e.parseClause(rest, where))
+			}
+		case "step":
+			if curLoop != nil {
+				curLoop.Steps = append(curLoop.Steps, e.parseClause(rest, where))
 			}
 		case "decreases":
 			if curLoop != nil {
